@@ -62,6 +62,9 @@ def _quiet():
     logging.disable(logging.CRITICAL)
 
 
+SPLIT1 = 3          # depth of the first, sequential split
+
+
 def _job(args):
     modname, obname, tier, mode, payload = args
     t0 = time.time()
@@ -90,10 +93,15 @@ def _job(args):
         deadline = t0 + ob.budget_s
         out = {"stats": None, "cex": [], "cex_keys": {}, "inconclusive": [], "prefixes": [], "error": None}
         if mode == "split":
-            ex = core.Explorer(split_depth=ob.shard_depth, timeout_ms=ob.timeout_ms, deadline=deadline, cex_key=keyfn)
-            ex.run(ob.body)
-            exs = [ex]
-            out["prefixes"] = ex.prefixes
+            # payload = {"depth": d, "prefixes": [...] | None}: two-level splitting - a shallow sequential split, then the deep split of
+            # every shallow prefix runs in parallel worker processes
+            depth = (payload or {}).get("depth", ob.shard_depth)
+            exs = []
+            for prefix in ((payload or {}).get("prefixes") or [None]):
+                ex = core.Explorer(prefix=prefix, split_depth=depth, timeout_ms=ob.timeout_ms, deadline=deadline, cex_key=keyfn)
+                ex.run(ob.body)
+                exs.append(ex)
+                out["prefixes"] += ex.prefixes
         else:
             exs = []
             for prefix in payload:
@@ -206,7 +214,9 @@ def run_property(prop_id, tier, modname, level="other", explanation="", assumpti
             if ob.custom is not None:
                 pending.append((ob, "custom", pool.apply_async(_job, ((modname, ob.name, tier, "custom", None),))))
             elif ob.shard_depth:
-                pending.append((ob, "split", pool.apply_async(_job, ((modname, ob.name, tier, "split", None),))))
+                d1 = min(SPLIT1, ob.shard_depth)
+                pending.append((ob, "split" if d1 == ob.shard_depth else "split1",
+                                pool.apply_async(_job, ((modname, ob.name, tier, "split", {"depth": d1}),))))
             else:
                 pending.append((ob, "full", pool.apply_async(_job, ((modname, ob.name, tier, "full", [None]),))))
         while pending:
@@ -219,6 +229,10 @@ def run_property(prop_id, tier, modname, level="other", explanation="", assumpti
                 progressed = True
                 r = fut.get()
                 absorb(ob.name, r)
+                if mode == "split1" and not r.get("error"):
+                    prefs = r["prefixes"]
+                    for ch in _chunks(prefs, 2 * ncpu) if prefs else []:
+                        nxt.append((ob, "split", pool.apply_async(_job, ((modname, ob.name, tier, "split", {"depth": ob.shard_depth, "prefixes": ch}),))))
                 if mode == "split" and not r.get("error"):
                     prefs = r["prefixes"]
                     for ch in _chunks(prefs, 4 * ncpu) if prefs else []:
